@@ -2,5 +2,5 @@
 From Coq Require Import List NArith Bool.
 From FS Require Import Sx Model.AccEvents Model.ReceiverAcc.
 Import ListNotations.
-Example receiver_empty : receiver_accepts (fun _ => true) [In (PStat None); Out PFin; In PFin; InEof; Return true] = Some true.
+Example receiver_empty : receiver_accepts (fun _ => true) [Inp (PStat None); Out PFin; Inp PFin; InEof; Return true] = Some true.
 Proof. vm_compute. reflexivity. Qed.
